@@ -92,9 +92,21 @@ class _NoTraceback:
         return []
 
 
+class _Metric:
+    """gear.metrics' prometheus objects are inert loader stubs; these are cheaper inert stand-ins"""
+
+    def inc(self, *a):
+        pass
+
+    def dec(self, *a):
+        pass
+
+
 D.sleep_before_try = _sleep_before_try
 D.log = _SilentLog()
 D.traceback = _NoTraceback()
+D.DB_CONNECTION_QUEUE_SIZE = _Metric()
+D.SQL_TRANSACTIONS = _Metric()
 
 
 # ---- deterministic loop (see harness/C20_gather.py) -----------------------------------------------------
@@ -106,10 +118,23 @@ class _NullSelector:
         pass
 
 
+_KEEP = []
+
+
+def _keep_task(loop, coro, **kw):
+    """documented task-factory hook: real asyncio.Task objects, kept alive for the life of the process.  (When a task
+    is garbage-collected the loop's WeakSet callback dereferences a weak reference, and CrossHair runs gc.collect() on
+    every such dereference.)"""
+    t = asyncio.Task(coro, loop=loop, **kw)
+    _KEEP.append(t)
+    return t
+
+
 class DetLoop(asyncio.BaseEventLoop):
     def __init__(self):
         super().__init__()
         self._selector = _NullSelector()
+        self.set_task_factory(_keep_task)
 
     def time(self):
         return 0.0
@@ -281,31 +306,39 @@ def n_ops(entry, nstmt):
     return 2 + (nstmt if entry == 'transaction' else 1) + 1
 
 
+DB = D.Database()      # one real Database object; every run gives it a fresh fake pool and release-task manager
+
+
+async def _work(tx, ws):
+    """the transactional operation: one statement per write, through three different Transaction methods"""
+    for j, w in enumerate(ws):
+        if j % 3 == 0:
+            await tx.just_execute('INSERT', w)
+        elif j % 3 == 1:
+            await tx.execute_update('INSERT', w)
+        else:
+            await tx.execute_insertone('INSERT', w)
+    return RETURN
+
+
+WORK = D.transaction(DB)(_work)
+WORK_RO = D.transaction(DB, read_only=True)(_work)
+
+
 async def _scenario(entry, nstmt, read_only, faults, initial):
     srv = Server(initial, faults)
-    db = D.Database()
-    db.pool = FakePool(srv)
-    db.connection_release_task_manager = D.BackgroundTaskManager()
+    DB.pool = FakePool(srv)
+    DB.connection_release_task_manager = D.BackgroundTaskManager()
     _State.sleeps = []
     writes = [('w', i) for i in range(nstmt)]
     outcome, value = 'returned', None
     try:
         if entry == 'transaction':
-            @D.transaction(db, read_only=read_only)
-            async def work(tx, ws):
-                for j, w in enumerate(ws):
-                    if j % 3 == 0:
-                        await tx.just_execute('INSERT', w)
-                    elif j % 3 == 1:
-                        await tx.execute_update('INSERT', w)
-                    else:
-                        await tx.execute_insertone('INSERT', w)
-                return RETURN
-            value = await work(writes)
+            value = await (WORK_RO if read_only else WORK)(writes)
         elif entry == 'execute_update':
-            value = await db.execute_update('INSERT', writes[0])
+            value = await DB.execute_update('INSERT', writes[0])
         else:
-            value = await db.execute_many('INSERT', writes)
+            value = await DB.execute_many('INSERT', writes)
     except Exception as e:
         outcome, value = 'raised', e
     # let the background connection-release tasks run
